@@ -532,7 +532,58 @@ func arrayAliasCases() []scopeCase {
 			}
 		}
 	}
+	// a re-assignment with a value that prints like the old one but is another value; reads tell them apart
+	alike := [][2]model.Expr{
+		{model.ArrLit{Elems: []model.Expr{lit(1), lit(2)}}, model.ArrLit{Elems: []model.Expr{model.ArrLit{Elems: []model.Expr{lit(1), lit(2)}}}}},
+		{model.ArrLit{Elems: []model.Expr{lit(1), lit(2)}}, model.ArrLit{Elems: []model.Expr{model.StrLit{S: "1"}, model.StrLit{S: "2"}}}},
+		{model.ArrLit{Elems: []model.Expr{model.StrLit{S: "1, 2"}}}, model.ArrLit{Elems: []model.Expr{lit(1), lit(2)}}},
+		{model.ArrLit{Elems: []model.Expr{model.ArrLit{}}}, model.ArrLit{Elems: []model.Expr{model.StrLit{S: ""}}}},
+		{model.ObjLit{Keys: []string{"n"}, Vals: []model.Expr{lit(1)}}, model.ObjLit{Keys: []string{"n"}, Vals: []model.Expr{model.StrLit{S: "1"}}}},
+		{model.ArrLit{Elems: []model.Expr{model.Lit{V: model.Nil}}}, model.ArrLit{Elems: []model.Expr{model.StrLit{S: ""}}}},
+	}
+	probe := func(n string) []model.Stmt {
+		return []model.Stmt{model.Text{S: "<" + n + " len="}, model.Print{E: call(v(n), "len")}, model.Text{S: " first="}, model.Print{E: call(model.ArrLit{Elems: []model.Expr{model.Index{X: v(n), I: lit(0)}}}, "len")},
+			model.Text{S: " each="}, model.Each{Var: "e", Arr: v(n), Body: []model.Stmt{model.Text{S: "."}}}, model.Text{S: ">"}}
+	}
+	for _, pr := range alike {
+		isArr := true
+		if _, ok := pr[0].(model.ObjLit); ok {
+			isArr = false
+		}
+		read := func(n string) []model.Stmt {
+			if isArr {
+				return probe(n)
+			}
+			return []model.Stmt{model.Text{S: "<" + n + "="}, model.Print{E: model.Binary{Op: "==", L: model.Dot{X: v(n), Name: "n"}, R: lit(1)}}, model.Text{S: ">"}}
+		}
+		for _, order := range [][2]model.Expr{{pr[0], pr[1]}, {pr[1], pr[0]}} {
+			out = append(out, scopeCase{append([]model.Stmt{model.Assign{Name: "a", E: order[0]}, model.Assign{Name: "a", E: order[1]}}, read("a")...), nil})
+			out = append(out, scopeCase{append(append([]model.Stmt{model.Assign{Name: "a", E: order[0]},
+				model.If{Conds: tru, Bodies: [][]model.Stmt{append([]model.Stmt{model.Assign{Name: "a", E: order[1]}}, read("a")...)}}}, model.Text{S: "|"}), read("a")...), nil})
+			out = append(out, scopeCase{append([]model.Stmt{model.Each{Var: "k", Arr: intArr(1, 2), Body: append([]model.Stmt{model.Assign{Name: "a", E: order[k2(order)]}}, read("a")...)}}, read("a")...),
+				map[string]model.Value{"a": mustValue(order[0])}})
+		}
+	}
+	// names that are keywords in another case are ordinary names: assigned, re-typed, bound by loops
+	for _, n := range []string{"True", "Nil", "In", "FALSE", "NIL", "iN"} {
+		out = append(out, scopeCase{[]model.Stmt{model.Assign{Name: n, E: lit(1)}, model.Print{E: v(n)}, model.If{Conds: tru, Bodies: [][]model.Stmt{{model.Assign{Name: n, E: lit(2)}, model.Print{E: v(n)}}}}, model.Print{E: v(n)}}, nil})
+		out = append(out, scopeCase{[]model.Stmt{model.Assign{Name: n, E: lit(1)}, model.Assign{Name: n, E: model.StrLit{S: "s"}}, model.Print{E: v(n)}}, nil})
+		out = append(out, scopeCase{[]model.Stmt{model.Each{Var: n, Arr: intArr(4, 5), Body: []model.Stmt{model.Print{E: v(n)}}}, model.Text{S: "|"}, model.Print{E: v(n)}}, nil})
+		out = append(out, scopeCase{[]model.Stmt{upFor(n, 0, 2, []model.Stmt{model.Print{E: v(n)}}, nil), model.Text{S: "|"}, model.Print{E: v(n)}}, map[string]model.Value{n: model.Str("data")}})
+		out = append(out, scopeCase{[]model.Stmt{model.Print{E: v(n)}, model.Text{S: "|"}, model.Print{E: model.Ternary{C: v(n), A: model.StrLit{S: "set"}, B: model.StrLit{S: "unset"}}}}, map[string]model.Value{n: model.Int(0)}})
+	}
 	return out
+}
+
+func k2(order [2]model.Expr) int { return 1 }
+
+// mustValue evaluates a literal expression of the model
+func mustValue(e model.Expr) model.Value {
+	v, err := model.NewInterp().Eval(e, model.NewScope(nil))
+	if err != nil {
+		panic(err)
+	}
+	return v
 }
 
 // layoutScopeCases: comp is the layout file here
